@@ -145,3 +145,60 @@ contract(F, "CombinatorialSpecificationSearcher._expand_class_with_strategy", pr
          modifies=["*self.classdb.comb_class_list", "*self.classdb.label_dict", "*self.classdb.empty_list",
                    "all:List(Int)", "all:Obj('AbstractRule')"],
          notes="every recorded (start, ends, rule) carries the labels of the rule's own parent and children, in order")
+
+# ------------------------------------------------------------------ C04/C15: add_rule -- what is done with a recorded rule
+# The label facts produced by _expand_class_with_strategy (each child label is the label of that child) are exactly what
+# makes `set_empty(child_label, False)` legitimate (C15: the cached emptiness must be the class's own answer), given A2:
+# a strategy that is not `possibly_empty` has no empty child.
+from .class_queue import WorkPacket as _WorkPacket  # noqa: E402
+SAL = dict(SAL, WorkPacket=_WorkPacket)
+FA2 = "comb_spec_searcher/rule_db/abstract.py"
+_CDB = "self.classdb"
+_GROW = ["wf(self.classdb)", "len(self.classdb.comb_class_list) >= old(len(self.classdb.comb_class_list))",
+         "forall(lambda i: implies(0 <= i and i < old(len(self.classdb.comb_class_list)), "
+         "self.classdb.comb_class_list[i] == old(self.classdb.comb_class_list[i])))"]
+_CDB_MODS = ["*self.classdb.comb_class_list", "*self.classdb.label_dict", "*self.classdb.empty_list"]
+_QMODS = ["all:Obj('DefaultQueue')", "all:Deque(Int)", "all:Counter(Int)", "all:Set(Int)", "all:List(Int)",
+          "all:Deque(WorkPacket)"]
+REG.classes["CombinatorialSpecificationSearcher"].fields.update(
+    {"classqueue": Obj("DefaultQueue"), "symmetry_expanded": Set(Int), "tried_to_verify": Set(Int)})
+contract(FA2, "RuleDBAbstract.add", props=["C04"], verify=False,
+         trusted_reason="abstract method: RuleDBBase.add (both dictionary databases) is verified under C05/C14; the forest "
+                        "database's add is covered by its bounded stand-in",
+         params={"self": Obj("RuleDBAbstract"), "start": Int, "ends": Seq(Int), "rule": Obj("Rule")},
+         may_raise=["StrategyDoesNotApply", "UserCodeError"],
+         modifies=["self.has_spec_now", "self.ver"])
+for _nm in ("try_verify", "_symmetry_expand"):
+    contract(F, f"CombinatorialSpecificationSearcher.{_nm}", props=["C04"], verify=False, aliases=SAL,
+             trusted_reason="recursion into the expansion machinery (it calls add_rule again): only its frame is used -- the class "
+                            "database only grows and keeps its invariant (each step of it is ClassDB.add/get_label/is_empty, C15)",
+             params={"self": S, "comb_class": CombClass, "label": Int},
+             requires=["wf(self.classdb)", "wf(self.classqueue)"], ensures=_GROW + ["wf(self.classqueue)"],
+             may_raise=["StrategyDoesNotApply", "UserCodeError"],
+             modifies=_CDB_MODS + _QMODS + ["self.ruledb.has_spec_now", "self.ruledb.ver", "all:Obj('AbstractRule')"])
+_CHILD_LBL = ("forall(lambda i: implies(0 <= i and i < len(end_labels), 0 <= end_labels[i] and "
+              "end_labels[i] < len(self.classdb.comb_class_list) and "
+              "self.classdb.comb_class_list[end_labels[i]] == compress(children_of(rule)[i])))")
+contract(F, "CombinatorialSpecificationSearcher.add_rule", props=["C04", "C15"], lenient=True, aliases=SAL,
+         params={"self": S, "start_label": Int, "end_labels": Seq(Int), "rule": Obj("Rule")},
+         pure_calls=["symmetries"],
+         requires=["wf(self.classdb)", "wf(self.classqueue)", "len(end_labels) == len(children_of(rule))", _CHILD_LBL,
+                   # A2: a rule of a strategy that is not possibly_empty has no empty child
+                   "implies(not possibly_empty_of(rule), forall(lambda i: implies(0 <= i and i < len(children_of(rule)), "
+                   "not truth(children_of(rule)[i]))))"],
+         may_raise=["StrategyDoesNotApply", "UserCodeError"],
+         call_requires={
+             # the rule is recorded under exactly the labels it was produced with
+             "RuleDBAbstract.add": ["start == start_label", "ends == end_labels", "same(rule, caller_rule)"],
+             # each child is tried for verification / symmetry-expanded under ITS OWN label
+             "CombinatorialSpecificationSearcher.try_verify": ["label == end_labels[_i0]", "comb_class == children_of(rule)[_i0]"],
+             "CombinatorialSpecificationSearcher._symmetry_expand": ["label == end_labels[_i0]",
+                                                                     "comb_class == children_of(rule)[_i0]"]},
+         loops={0: dict(invariant=["wf(self.classdb)", "wf(self.classqueue)", _CHILD_LBL,
+                                   "len(self.classdb.comb_class_list) >= at('loop0', len(self.classdb.comb_class_list))",
+                                   "forall(lambda i: implies(0 <= i and i < at('loop0', len(self.classdb.comb_class_list)), "
+                                   "self.classdb.comb_class_list[i] == at('loop0', self.classdb.comb_class_list[i])))"],
+                        modifies=_CDB_MODS + _QMODS + ["self.ruledb.has_spec_now", "self.ruledb.ver", "all:Obj('AbstractRule')"])},
+         ensures=_GROW + ["wf(self.classqueue)"],
+         modifies=_CDB_MODS + _QMODS + ["self.ruledb.has_spec_now", "self.ruledb.ver", "all:Obj('AbstractRule')"],
+         notes="set_empty(child, False) happens only for strategies that are not possibly_empty, under the child's own label")
